@@ -14,7 +14,9 @@ independent of the limb type.  The model runs on limb lists (`Cnl.Wide`), the or
     bin <op> <ty> <a> <b>                => <ty>:<hex>          op ∈ add sub mul div mod and or xor
                                             (`mul` with ≥ 129 limbs runs the transcribed Karatsuba routine)
     cmp <op> <ty> <a> <b>                => 0|1
-    sh <shl|shr> <ty> <i32|u32> <a> <k>  => <ty>:<hex>
+    sh <shl|shr> <ty> <count ty> <a> <k> => <ty>:<hex>
+    shc <shl|shr|shla|shra> <ty> <count ty> <a> <k> => <ty>:<hex>   count given as `cnl::constant<K>` (`K_c` literals:
+                                            count type i128), binary operator / compound assignment (shla, shra)
     un <neg|preinc|predec|postinc|postdec> <ty> <a> => <ty>:<hex>[/<hex after>]
     toint <ty> <T> <a>                   => <T>:<value>
     fromint <ty> <T> <v>                 => <ty>:<hex>
@@ -112,6 +114,22 @@ def checkC10 (toks : List String) (res : String) : Option Verdict :=
     let want := if inRange then (WideSpec.specBin f.N f.signed (if left then .shl else .shr) x k).map (showP ty f.N) else none
     let label := dir ++ (if k < 0 then "/negative" else if k = 0 then "/zero" else if k ≥ f.N then "/exceeds"
                          else if k.toNat % f.w = 0 then "/limbs" else if k.toNat < f.w then "/bits" else "/limbs+bits")
+    some { model := showW ty f r, spec := want.map (· == res), branch := label, nontrivial := want.isSome }
+  | ["shc", dir, tys, cty, a, k] => do
+    -- `wide << constant<K>` forwards `rep << K` with `K` of the constant's value type (`_impl/wide-integer.h`);
+    -- `<<=` / `>>=` with a constant go through the binary operator: the same function of the operands
+    let ty ← parseTy tys; let (f, _) ← wdFmt ty; let ct ← parseIntTy cty
+    let pa ← parseHex a; let k ← k.toInt?
+    let la := ofNat f.w f.n pa
+    let left := dir == "shl" || dir == "shla"
+    if !left && dir != "shr" && dir != "shra" then none
+    let r := if left then shlConst f la k ct.signed else shrConst f la k ct.signed
+    let x := patToInt f.N f.signed pa
+    let inRange := 0 ≤ k ∧ k < f.N
+    -- the property's demand, on the integers: x·2^k reduced to N bits / the floor of x/2^k
+    let want := if inRange then some (showP ty f.N (if left then WideSpec.wrapTwos f.N f.signed (x * 2^k.toNat) else x / 2^k.toNat)) else none
+    let label := "shc/" ++ dir ++ (if k < 0 then "/negative" else if k = 0 then "/zero" else if k ≥ f.N then "/exceeds"
+                         else if k ≥ 256 then "/256-and-more" else if k.toNat % f.w = 0 then "/limbs" else if k.toNat < f.w then "/bits" else "/limbs+bits")
     some { model := showW ty f r, spec := want.map (· == res), branch := label, nontrivial := want.isSome }
   | ["un", op, tys, a] => do
     let ty ← parseTy tys; let (f, _) ← wdFmt ty
